@@ -14,7 +14,7 @@ from .core import prove, Failure
 
 class Case:
     def __init__(self, name, fn, requires=(), ensures=None, raises=(), native=None, target=None, timeout_ms=30000,
-                 tactic=None, expect_fail=False, note=None):
+                 tactic=None, expect_fail=False, note=None, tier='quick'):
         self.name = name
         self.fn = fn                  # closure: builds proxies, calls the REAL code, returns a value
         self.requires = list(requires)
@@ -26,6 +26,7 @@ class Case:
         self.tactic = tactic
         self.expect_fail = expect_fail  # canary: a deliberately wrong postcondition that MUST produce a counter-model
         self.note = note
+        self.tier = tier              # 'quick': every run; 'thorough': only in the thorough tier
 
 
 def _work(arg):
@@ -57,7 +58,8 @@ def run_cases(run, modname, prop_key_prefix='', setup_pyx=False, engine='P', sel
     from vlib.report import pmap
     mod = importlib.import_module(modname)
     cs = mod.cases()
-    idxs = [i for i, c in enumerate(cs) if select is None or select(c)]
+    idxs = [i for i, c in enumerate(cs) if (select is None or select(c)) and (c.tier == 'quick' or run.tier == 'thorough')]
+    run.notes.setdefault('contract_cases', {})[modname] = {'run': len(idxs), 'defined': len(cs)}
     results = pmap(_work, [(modname, i, setup_pyx) for i in idxs])
     import os
     if os.environ.get('VERIF_TIMING'):
